@@ -66,6 +66,11 @@ Init == \E a \in 0..L, f \in 0..(L + 1) :
           /\ msg = [sacc |-> Sacc("A", a, 0), events |-> Window("A", f, a), transported |-> "no"]
           /\ nmut = 0 /\ base = [f |-> f, a |-> a]
 
+\* the genuine message the adversary started from. The harness also replays every assembled message as an IN-PLACE alteration of
+\* the received genuine one: Genuine(base) is decoded (JSON / CBOR) by the receiver, verified, and the objects of the decoded update
+\* - the accumulator and every event, the slice of events staying the same when the lengths agree - are then overwritten with the
+\* content of msg; all verdicts are functions of the content (AuthVerify etc. speak about msg, not about the history of the object)
+Genuine(b) == [sacc |-> Sacc("A", b.a, 0), events |-> Window("A", b.f, b.a), transported |-> "no"]
 N == Len(msg.events)
 Mut(m) == /\ nmut < MaxMut /\ msg.transported = "no" /\ nmut' = nmut + 1 /\ msg' = m /\ UNCHANGED base
 SetEv(j, ev) == [msg EXCEPT !.events[j] = ev]
